@@ -188,6 +188,9 @@ func c11Proc(c *lab.Ctx) {
 		c11Case{"term-bodyhalf-Http2", syscall.SIGTERM, "Http2", "body-half"},
 		c11Case{"hup-bodyhalf-Http2", syscall.SIGHUP, "Http2", "body-half"},
 		c11Case{"ctl-bodyhalf-Http2", 0, "Http2", "body-half"},
+		// not handed over: the rest of the body arrives 7 s after the signal, inside the old process's drain window
+		// (it stops accepting 3 s after the signal and may then drain for --drain-time-s 6)
+		c11Case{"hup-bodyslow-Http1", syscall.SIGHUP, "Http1", "body-slow"},
 	)
 	if c.Thorough() {
 		cases = append(cases,
@@ -195,9 +198,6 @@ func c11Proc(c *lab.Ctx) {
 			c11Case{"term-longlived-Http1", syscall.SIGTERM, "Http1", "longlived"},
 			c11Case{"term-longlived-Http2", syscall.SIGTERM, "Http2", "longlived"},
 			c11Case{"hup-bodyhalf-bolt", syscall.SIGHUP, "bolt", "body-half"},
-			// not handed over: the rest of the body arrives 7 s after the signal, inside the old process's drain window
-			// (it stops accepting 3 s after the signal and may then drain for --drain-time-s 6)
-			c11Case{"hup-bodyslow-Http1", syscall.SIGHUP, "Http1", "body-slow"},
 			c11Case{"hup-bodyslow-Http2", syscall.SIGHUP, "Http2", "body-slow"},
 			c11Case{"ctl-bodyhalf-bolt", 0, "bolt", "body-half"},
 			c11Case{"hup-inflight-Http2", syscall.SIGHUP, "Http2", "waiting"},
